@@ -13,6 +13,24 @@ def cfg(ty, handler, maxlen, twokeys, sim=False, simlen=0):
         ty, "TRUE" if twokeys else "FALSE", maxlen, "TRUE" if sim else "FALSE", simlen, handler)
 
 
+def split_sleeps(sc):
+    """The generator's pseudo-command SLEEP n becomes a real pause of n ms between two batches of requests."""
+    steps = []
+    for st in sc["steps"]:
+        cur = []
+        for r in st["reqs"]:
+            if r["name"] == "SLEEP":
+                if cur:
+                    steps.append(dict(st, reqs=cur))
+                    cur = []
+                steps.append({"c": st["c"], "op": "sleep", "at": r["args"][0]["n"]})
+            else:
+                cur.append(r)
+        if cur:
+            steps.append(dict(st, reqs=cur))
+    return dict(sc, steps=steps)
+
+
 def programs(ctx, handler, maxlen, twokeys, nsim, simlen, types=TYPES):
     out = []
     counts = {}
@@ -35,4 +53,4 @@ def programs(ctx, handler, maxlen, twokeys, nsim, simlen, types=TYPES):
                         reqs.insert(at, {"cls": "prog", "name": "SELECT", "args": [dict(cmdlib.tok("int", n=rng.randrange(3)))]})
             out += sims
             counts[ty + "_random"] = len(sims)
-    return out, counts
+    return [split_sleeps(sc) for sc in out], counts
